@@ -1,5 +1,6 @@
 import GoRes.Model.Mux
 import GoRes.Lemmas.Mux
+import GoRes.Lemmas.MuxMount
 /-! # C06 — routing returns the most specific matching pattern, params and group
 
 Property theorems about the trie model (`Model/Mux.lean`).  Statements are about
@@ -192,6 +193,85 @@ theorem parseGroup_idx (group pattern : Str) (parts : List GPart) (i : Nat)
     (h : parseGroup group pattern = .ok (some parts)) (hi : GPart.idx i ∈ parts) :
     ∃ name, (splitPattern pattern)[i]? = some (Ch.dollar :: name) :=
   parseGroup_idx' h hi
+
+
+/-! ## through mounted sub-muxes
+
+A mounted sub-mux is a subtree `sub` (flagged `mounted`) of the parent's tree at the literal
+path `st` = mount path followed by the sub-mux's own path.  Lookups and registrations made
+through the parent on names/patterns below `st` are the lookups and registrations of the
+sub-mux, with every position shifted by `st.length`. -/
+
+/-- **lookup through a mount** finds what the sub-mux finds, and reports the mount index shifted
+by the length of the path to the mount point (so nested mounts compose) -/
+theorem match_through_mount (root sub : Node) (st rest : List Str) (f : Found)
+    (hst : LitPath st) (hloc : getAt root (st.map elemOf) = some sub) (hm : sub.mounted = true)
+    (hf : matchNode sub rest 0 0 = some f) :
+    matchNode root (st ++ rest) 0 0 = some ⟨f.node, f.mountIdx + st.length⟩ :=
+  match_through_mount' root sub st rest f hst hloc hm hf
+
+/-- … hence the **same path parameters** … -/
+theorem params_through_mount (ps : List PathParam) (st rest : List Str) (mi : Nat) :
+    paramValues ps (st ++ rest) (mi + st.length) = paramValues ps rest mi :=
+  params_through_mount' ps st rest mi
+
+/-- … and the **same group** as a lookup on the sub-mux itself -/
+theorem group_through_mount (g : Group) (rname : Str) (st rest : List Str) (mi : Nat) :
+    groupToString g rname ((st ++ rest).drop (mi + st.length)) = groupToString g rname (rest.drop mi) :=
+  group_through_mount' g rname st rest mi
+
+/-- **registration through a mount**: registering `st.p` on the parent — with a group template
+whose tag positions are counted in the full pattern — is registering `p` on the sub-mux (tag
+positions counted in `p`): the same subtree, the same outcome, for valid and invalid patterns,
+fresh and conflicting ones alike.  `p` is a non-empty pattern (`hp`: at least one token; `hp1`:
+not the single empty token, i.e. `p ≠ ""` — the empty pattern registers on the sub-mux's root
+itself, which through the parent is the pattern `st`, not `st.`). -/
+theorem add_through_mount (root sub : Node) (st ptoks : List Str) (id : Nat) (g : Group)
+    (hst : LitPath st) (hloc : getAt root (st.map elemOf) = some sub) (hm : sub.mounted = true)
+    (hp : ptoks ≠ []) (hp1 : ptoks ≠ [[]]) :
+    addAt root (joinDots (st ++ ptoks)) id (shiftGroup st.length g) =
+      ((setAt root (st.map elemOf) (addAt sub (joinDots ptoks) id g).1), (addAt sub (joinDots ptoks) id g).2) :=
+  add_through_mount' root sub st ptoks id g hst hloc hm hp hp1
+
+/-- the tokens of every path accepted by `Mount`/`NewMux` (`isValidPath`) form a `LitPath` -/
+theorem litPath_of_validPath (p : Str) (h : Pattern.isValidPath p = true) : LitPath (splitPattern p) :=
+  litPath_of_isValidPath h
+
+/-! ### non-vacuity of the mount theorems
+
+An empty sub-mux mounted at "m.n" on an empty root (`mnt0`; the mount point is `mntSub0`), then
+"m.n.a.$x" registered *through the root* with a group template whose tag position is counted in
+the full pattern (`$x` is token 3), and the name "m.n.a.v" looked up. -/
+def mnt0 : Node := (mountAt Node.empty b!"m.n" Node.empty).1
+def mntSub0 : Node := Node.empty.setMounted true
+/-- registration through the root … -/
+def mnt1 := addAt mnt0 b!"m.n.a.$x" 7 (some [.idx 3])
+/-- … and the same registration on the sub-mux itself (`$x` is token 1 of "a.$x") -/
+def mntSub1 := addAt mntSub0 b!"a.$x" 7 (some [.idx 1])
+
+example : (mountAt Node.empty b!"m.n" Node.empty).2 = .ok () := rfl
+-- the hypotheses `hst`, `hloc`, `hm` hold before the registration …
+example : LitPath [b!"m", b!"n"] := by unfold LitPath; decide
+example : LitPath (splitPattern b!"m.n") := litPath_of_validPath _ (by decide)
+example : getAt mnt0 ([b!"m", b!"n"].map elemOf) = some mntSub0 ∧ mntSub0.mounted = true := ⟨rfl, rfl⟩
+-- … so `add_through_mount` applies (pattern tokens `["a", "$x"]`, group index 1 shifted to 3);
+-- both sides are a successful registration that stores a handler
+example : mnt1 = (setAt mnt0 ([b!"m", b!"n"].map elemOf) mntSub1.1, mntSub1.2) :=
+  add_through_mount mnt0 mntSub0 [b!"m", b!"n"] [b!"a", b!"$x"] 7 (some [.idx 1])
+    (by unfold LitPath; decide) rfl rfl (by decide) (by decide)
+example : mnt1.2 = .ok () ∧ mntSub1.2 = .ok () := ⟨rfl, rfl⟩
+-- the hypotheses of `match_through_mount` hold after the registration, with a successful
+-- sub-mux lookup of "a.v" (mount index 0) …
+example : getAt mnt1.1 ([b!"m", b!"n"].map elemOf) = some mntSub1.1 ∧ mntSub1.1.mounted = true := ⟨rfl, rfl⟩
+example : (matchNode mntSub1.1 [b!"a", b!"v"] 0 0).map (·.mountIdx) = some 0 := by decide
+-- … and the lookup through the root reports mount index 0 + 2, the parameter x = "v" and the
+-- group "v" (token 3 of the full name = token 1 below the mount point)
+example : (matchNode mnt1.1 [b!"m", b!"n", b!"a", b!"v"] 0 0).map (·.mountIdx) = some 2 := by decide
+example : getHandler [] mnt1.1 b!"m.n.a.v" = .found ⟨7, [], [(b!"x", b!"v")], b!"v"⟩ := by decide
+example : getHandler [] mntSub1.1 b!"a.v" = .found ⟨7, [], [(b!"x", b!"v")], b!"v"⟩ := by decide
+-- the excluded case of `hp1`: "" registers on the mount point, "m.n." is invalid
+example : (addAt mntSub0 (joinDots [[]]) 7 none).2 = .ok () ∧
+    (addAt mnt0 (joinDots ([b!"m", b!"n"] ++ [[]])) 7 none).2 = .error .invalidPattern := ⟨rfl, rfl⟩
 
 /-! ## non-vacuity -/
 -- a=97 b=98 x=120 '$'=36 '.'=46 '>'=62 '*'=42
